@@ -9,7 +9,7 @@ Open Scope Z_scope.
 
 Theorem C01_nft_sound_parsed : forall (s : bytes) f off prev ns,
   parse_trigger s = Ok f ->                         (* NewCronTrigger accepts s and acts on fields f *)
-  -93600 <= off <= 93600 -> 0 <= prev <= max_nanos ->
+  -93600 <= off <= 93600 -> min_nanos <= prev <= max_nanos ->
   next_fire_time f off prev = Fire ns ->
   ns mod nanos = 0 /\ prev < ns <= max_nanos /\
   exists c, civil_from_unix off (ns / nanos) = Some c /\ matches f c = true /\ valid_civil c = true.
@@ -19,7 +19,7 @@ Qed.
 Print Assumptions C01_nft_sound_parsed.
 
 Theorem C01_nft_sound_parsed_any_location : forall (s : bytes) f z prev ns,
-  parse_trigger s = Ok f -> wf_zone z = true -> 0 <= prev <= max_nanos ->
+  parse_trigger s = Ok f -> wf_zone z = true -> min_nanos <= prev <= max_nanos ->
   next_fire_time_zone f z prev = Fire ns ->
   ns mod nanos = 0 /\ prev < ns <= max_nanos /\
   exists c, civil_from_unix (offset_at z (ns / nanos)) (ns / nanos) = Some c /\ matches f c = true /\ valid_civil c = true.
